@@ -290,7 +290,8 @@ func (w *World) observe(tid, op int, c call) {
 //
 //	create-empty  the ring did not exist, now exists without keys and without a current key
 //	none          no difference
-//	add           exactly one key appended, with a sequence number above all others; nothing else changed
+//	add           exactly one key appended, with a sequence number no other key has (its order is checked separately); nothing else changed
+//	addcur        like add, and the new key became the current key in the same commit
 //	setcur        only the current-key pointer changed (Seq = new current)
 //	destroy       exactly one key lost its data and became destroyed; nothing else changed
 //	rewrite       anything else (Detail tells which keys were removed, changed, added)
@@ -305,7 +306,7 @@ func classify(before, after RingState) (kind string, seq int, detail string) {
 		return "none", noKey, ""
 	}
 	if before.Exists && after.Exists && before.Bad == "" {
-		if len(after.Keys) == len(before.Keys)+1 && after.Current == before.Current {
+		if len(after.Keys) == len(before.Keys)+1 && (after.Current == before.Current || after.Current == after.Keys[len(after.Keys)-1].Seq) {
 			ok := true
 			for i := range before.Keys {
 				if !sameKey(before.Keys[i], after.Keys[i]) {
@@ -313,7 +314,10 @@ func classify(before, after RingState) (kind string, seq int, detail string) {
 				}
 			}
 			nk := after.Keys[len(after.Keys)-1]
-			if ok && !nk.Destroyed && nk.Bad == "" && (len(before.Keys) == 0 || nk.Seq > before.Keys[len(before.Keys)-1].Seq) {
+			if ok && !nk.Destroyed && nk.Bad == "" && before.key(nk.Seq) == nil {
+				if after.Current != before.Current {
+					return "addcur", nk.Seq, ""
+				}
 				return "add", nk.Seq, ""
 			}
 		}
